@@ -17,23 +17,41 @@ package crypto
 //@ func Seal
 //@   modifies nothing
 //@ package crypto/aes
+//@ ghost aesCipherCalls Int stable
 //@ func NewCipher
 //@   modifies nothing
 //@   ensures result1 == nil ==> result0 != nil
+//@   sets aesCipherCalls = aesCipherCalls + 1
 //@ package crypto/cipher
 //@ func NewGCM
 //@   modifies nothing
 //@   ensures result1 == nil ==> result0 != nil
+//@ ghost gcmOpens Int stable
+//@ ghost gcmOpenNonce Slice stable
+//@ ghost gcmOpenData Slice stable
+//@ ghost gcmOpenResult Slice stable
+//@ ghost gcmOpenErr Iface stable
 //@ func iface cipher.AEAD.Open
 //@   modifies nothing
+//@   sets gcmOpens = gcmOpens + 1
+//@   sets gcmOpenNonce = nonce
+//@   sets gcmOpenData = ciphertext
+//@   sets gcmOpenResult = result0
+//@   sets gcmOpenErr = result1
 //@ func iface hash.Hash.Sum
 //@   modifies nothing
 //@ package github.com/anyproto/any-sync/util/crypto
 
 //@ func DecryptX25519
 //@   requires privKey != nil && pubKey != nil
+// C05: decryption refuses early only what cannot even hold a nonce; everything else - including the
+// 28-byte ciphertext of an empty plaintext - goes to the authenticated open with the first 12 bytes as
+// nonce and the rest as sealed data, and the result is exactly what the open returns.
 //@ func (*AESKey).DecryptReuse
 //@   requires k != nil && len(k.raw) >= 32
+//@   ensures [only_nonceless_input_refused_early] (len(ciphertext) >= 12 ==> aesCipherCalls == old(aesCipherCalls) + 1) && (len(ciphertext) < 12 ==> aesCipherCalls == old(aesCipherCalls) && result1 != nil)
+//@   ensures [opened_once_with_nonce_and_rest] gcmOpens > old(gcmOpens) ==> gcmOpens == old(gcmOpens) + 1 && len(ciphertext) >= 12 && baseof(gcmOpenNonce) == baseof(ciphertext) && len(gcmOpenNonce) == 12 && len(gcmOpenData) == len(ciphertext) - 12
+//@   ensures [result_is_the_opened_plaintext] result1 == nil ==> gcmOpens == old(gcmOpens) + 1 && gcmOpenErr == nil && result0 == gcmOpenResult
 //@ func (*AESKey).Decrypt
 //@   requires k != nil && len(k.raw) >= 32
 
